@@ -3,6 +3,7 @@ import HdVerif.Proofs.SRSeqHeap
 import HdVerif.Proofs.SRSeqTie
 import HdVerif.Proofs.SRSeqSpec
 import HdVerif.Proofs.SRSeqPool
+import HdVerif.Generated.T14s
 /-! # C14  A content sequence and its name index never disagree
 
 Property theorems only.  They are about the executable model `Model/SRContentSeq.lean` of
@@ -484,6 +485,22 @@ theorem deep_copy_answers_like_the_original {s : Seq} (h : Reachable s) (f : Nat
    getNodes_relabel h.wf f⟩
 
 end Copies
+
+/-- **The state of the object is the modelled one** (regenerated, target T14s): the methods of the class assign exactly
+`_is_root`, `_is_sr`, `_lut` on `self` (next to the list of the pydicom base class — the four fields of the model's `Seq`;
+a cache or a second index would be a fifth), `is_root` / `is_sr` hand out those two attributes, the class has the one
+base class, binds nothing in its body other than by `def`, and defines none of the hooks that would change what
+`copy.copy` / `copy.deepcopy` / pickling do (`Model/SRSeqPool.lean` reads them as CPython's defaults) nor any of the
+inherited list methods the model takes from `collections.abc.MutableSequence` / pydicom as they are. -/
+theorem object_state_pinned :
+    Gen.csInstanceAttrs = ["_is_root", "_is_sr", "_lut"] ∧
+    Gen.csFlagProps = [("is_root", "_is_root"), ("is_sr", "_is_sr")] ∧
+    Gen.csBases = ["DataElementSequence"] ∧ Gen.csClassLevelNames = [] ∧
+    (∀ m ∈ ["__copy__", "__deepcopy__", "__reduce__", "__reduce_ex__", "__getstate__", "__setstate__", "__getnewargs__",
+            "__new__", "__getattr__", "__getattribute__", "__setattr__",
+            "__getitem__", "__len__", "__eq__", "__ne__", "__reversed__", "__add__", "__mul__", "__imul__",
+            "pop", "remove", "reverse", "clear", "sort", "count", "copy", "_validate"], m ∉ Gen.csMethods) := by
+  decide
 
 /-! ## Non-vacuity: a concrete history with colliding names on a non-root SR sequence
 (construct [a0, b1], insert c0 in front, extend [d1, e0], assign position 1, delete a slice, reverse). -/
